@@ -542,7 +542,7 @@ def run(ctx):
             cases = [(l.strip(), {"kind": "corpus"}) for l in open(ctx["replay"]) if l.strip() and not l.startswith("#")]
         else:
             cases = witness_cases() + build_cases(ctx)
-        li, lm, logs = vlib.run_pair(ctx, impl_exe, model_exe, [c[0] for c in cases], "c18")
+        li, lm, logs = vlib.run_pair(ctx, impl_exe, model_exe, [c[0] for c in cases], "c18", timeout=3000)
         stats = evaluate(ctx, v, cases, li, lm)
         if ctx.get("replay"):
             for (line, _), a, b in zip(cases, li, lm):
